@@ -173,6 +173,12 @@ def run(ctx: Ctx) -> int:
             cur, prev = cmp_.left.id, cmp_.comparators[0].id
             save = [s for s in lp.body if isinstance(s, ast.Assign) and isinstance(s.targets[0], ast.Name) and isinstance(s.value, ast.Name) and {s.targets[0].id, s.value.id} == {cur, prev}]
             adv = [s for s in lp.body if isinstance(s, ast.Assign) and isinstance(s.targets[0], ast.Name) and not isinstance(s.value, ast.Name) and s.targets[0].id in (cur, prev)]
+            both = [s for s in lp.body if isinstance(s, ast.Assign) and len(s.targets) == 2 and all(isinstance(t, ast.Name) for t in s.targets) and {t.id for t in s.targets} == {cur, prev}]
+            if both:
+                # canonical form of `cur = <advance>; prev = cur`: the remembered value is the advanced one
+                n_fp += 1
+                ctx.oblige("C19.b", False, lp, f"`{prev}` is assigned together with / after the advanced `{cur}`: the loop condition `{ast.unparse(cmp_)}` fails after the first step, so only one missing parent level is tolerated for the doubled creatable flag", fn=init)
+                continue
             if not save or not adv:
                 continue
             n_fp += 1
@@ -213,6 +219,25 @@ def run(ctx: Ctx) -> int:
                 fn=init,
             )
     ctx.floor("C19.b-probes", n_probe, 15)
+
+    # "already a path of this type" means an instance of the library's own Path (mode checked, relative/absolute
+    # recorded) - not anything path-like: a pathlib.Path given as a default or through parse_object is still checked
+    ipt = ctx.func("typing:_is_path_type")
+    insts = [c for c in calls_in(ipt) if call_leaf(c) == "isinstance" and len(c.args) == 2]
+    ok = len(insts) == 1 and isinstance(insts[0].args[1], ast.Name) and insts[0].args[1].id == "Path" and ctx.repo.modules["typing"].imports.get("Path", ("", ""))[0].endswith("_util")
+    ctx.oblige("C19.b", ok, insts[0] if insts else ipt, "a value counts as already of a path type only if it is an instance of jsonargparse's Path" if ok else f"the 'already of this type' test of the path types is `{ast.unparse(insts[0]) if insts else '?'}`, wider than jsonargparse's Path: a pathlib.Path (default, parse_object) is accepted without any mode check and without relative/absolute bookkeeping", fn=ipt, construct="path type check")
+    # parse_value_or_config hands back the path it read the value from, whatever kind of value the file held:
+    # callers resolve relative entries of the value against that file's directory
+    pvc = ctx.func("_util:parse_value_or_config")
+    gp = ctx.cfg(pvc)
+    pstores = [s for s in walk_local(pvc) if isinstance(s, ast.Assign) and isinstance(s.targets[0], ast.Name) and isinstance(s.value, ast.Call) and call_leaf(s.value) == "Path"]
+    ctx.need(len(pstores) == 1, "parse_value_or_config: <cfg_path> = Path(value, ...)")
+    cpv = pstores[0].targets[0].id
+    resets = [s for s in walk_local(pvc) if isinstance(s, ast.Assign) and s is not pstores[0] and any(isinstance(t, ast.Name) and t.id == cpv for t in s.targets)]
+    late = [s for s in resets if gp.can_reach(gp.cn(pstores), gp.cn(s))]
+    rets_p = [r for r in walk_local(pvc) if isinstance(r, ast.Return)]
+    ok = not late and all(isinstance(r.value, ast.Tuple) and len(r.value.elts) == 2 and isinstance(r.value.elts[1], ast.Name) and r.value.elts[1].id == cpv for r in rets_p)
+    ctx.oblige("C19.c", ok, late[0] if late else pvc, f"the path a value was read from is returned as read (`{cpv}` is not changed after it was set)" if ok else f"`{cpv}` is overwritten after the file was read ({src(late[0], 40) if late else 'return changed'}): for a file whose content is not a mapping (a list of paths) the caller no longer enters the file's directory, so its relative entries resolve against the process cwd", fn=pvc, construct="config path returned as read")
 
     # ---------------- C19.c ---------------------------------------------------
     n_sites = 0
